@@ -160,12 +160,15 @@ template <typename T, typename A>
 std::string unary_on(const std::string& op, const A& a, const opts_t& o) {
     const auto& ctx = C12_CTX;
 #define U(name, ...) if (op==#name) return cmp2<T>(na::name(a, ##__VA_ARGS__, ctx), na::name(a, ##__VA_ARGS__), o);
-    U(sqrt) U(ceil) U(floor) U(relu) U(relu6) U(softsign) U(hardswish)
+    U(sqrt) U(ceil) U(floor) U(relu) U(relu6) U(softsign)
+#ifndef C12_NO_MASKOPS
+    U(hardswish)
+    if (op=="softshrink") return cmp2<T>(na::softshrink(a, 0.5f, ctx), na::softshrink(a, 0.5f), o);
+    if (op=="hardshrink") return cmp2<T>(na::hardshrink(a, 0.5f, ctx), na::hardshrink(a, 0.5f), o);
+#endif
     if (op=="hardtanh")   return cmp2<T>(na::hardtanh(a, -1.0f, 1.0f, ctx), na::hardtanh(a, -1.0f, 1.0f), o);
     if (op=="leaky_relu") return cmp2<T>(na::leaky_relu(a, 0.01f, ctx), na::leaky_relu(a, 0.01f), o);
     if (op=="prelu")      return cmp2<T>(na::prelu(a, 0.25f, ctx), na::prelu(a, 0.25f), o);
-    if (op=="softshrink") return cmp2<T>(na::softshrink(a, 0.5f, ctx), na::softshrink(a, 0.5f), o);
-    if (op=="hardshrink") return cmp2<T>(na::hardshrink(a, 0.5f, ctx), na::hardshrink(a, 0.5f), o);
 #undef U
     return "unknown-op";
 }
@@ -227,15 +230,19 @@ std::string handle_t(const std::string& kind, const Args& a) {
     if (kind=="reduce") {
         return with_layout<T>(get(a,"layout"), nats(a,"shape"), reals(a,"data"), [&](const auto& x){ return reduce_on<T>(op, x, a, o); });
     }
-#ifndef C12_NO_MATMUL
     if (kind=="matmul") {
+#ifdef C12_NO_MATMUL_F64
+        if constexpr (sizeof(T)==8) return "unsupported";
+        else
+#endif
+        {
         // lhs row-major (M,K); rhs column-major (K,N): the only combination the SIMD matmul evaluator accepts
         const auto& ctx = C12_CTX;
         row_t<T> l; fill<row_t<T>,T>(l, nats(a,"lshape"), reals(a,"ldata"));
         col_t<T> r; fill<col_t<T>,T>(r, nats(a,"rshape"), reals(a,"rdata"));
         return cmp2<T>(na::matmul(l, r, ctx), na::matmul(l, r), o);
+        }
     }
-#endif
     return "unknown-op";
 }
 
